@@ -50,7 +50,7 @@ func (v *Verifier) newCtx(key string) (*FnCtx, error) {
 		errGlobals: map[string]bool{}, boxedScalars: map[types.Object]string{}, typeTags: map[string]bool{},
 		closureLits: map[types.Object]*ast.FuncLit{}, inModScan: map[*ast.FuncLit]bool{}, hiddenIdx: map[ast.Node]types.Object{},
 		rangeIdx: map[ast.Node]types.Object{}, rangeLen: map[ast.Node]string{}, callOrds: map[*ast.CallExpr]int{},
-		nocontract: map[string]bool{}, externNoCon: map[string]bool{}, inTrial: map[ast.Node]bool{}}
+		nocontract: map[string]bool{}, externNoCon: map[string]bool{}, inTrial: map[ast.Node]bool{}, iterExtra: map[ast.Node][]types.Object{}}
 	c.nopanic = con.Flags["nopanic"]
 	c.ieee = con.Flags["ieee"]
 	c.declSeq(SStr)
@@ -61,8 +61,37 @@ func (v *Verifier) newCtx(key string) (*FnCtx, error) {
 		case *ast.ForStmt, *ast.RangeStmt:
 			n++
 			c.loopOrd[nd] = n
+		case *ast.CallExpr:
+			if ci := c.calleeOf(x); ci.fn != nil {
+				if cc := v.specs.Contracts[typesFuncKey(ci.fn)]; cc != nil && cc.Iter != nil {
+					n++
+					c.loopOrd[nd] = n
+				}
+			}
 		case *ast.AssignStmt:
 			for i, r := range x.Rhs {
+				// x := f(...) where f is inlined and returns a function literal
+				if ce, ok := r.(*ast.CallExpr); ok && i < len(x.Lhs) {
+					if ci := c.calleeOf(ce); ci.fn != nil {
+						k := typesFuncKey(ci.fn)
+						if cc := v.specs.Contracts[k]; cc != nil && cc.Flags["inline"] {
+							if cfd := v.funcs[k]; cfd != nil && cfd.Body != nil {
+								ast.Inspect(cfd.Body, func(m ast.Node) bool {
+									if rs, ok := m.(*ast.ReturnStmt); ok && len(rs.Results) == 1 {
+										if fl, ok := rs.Results[0].(*ast.FuncLit); ok {
+											if id, ok := x.Lhs[i].(*ast.Ident); ok {
+												if o := c.info.ObjectOf(id); o != nil {
+													c.closureLits[o] = fl
+												}
+											}
+										}
+									}
+									return true
+								})
+							}
+						}
+					}
+				}
 				if fl, ok := r.(*ast.FuncLit); ok && i < len(x.Lhs) {
 					if id, ok := x.Lhs[i].(*ast.Ident); ok {
 						if o := c.info.ObjectOf(id); o != nil {
@@ -107,6 +136,31 @@ func (v *Verifier) verifyFunc(key string, splitName, splitCase string, splitCond
 		c.params = append(c.params, o)
 		if val.S != SNone {
 			c.inputs[id.Name] = val.T
+		}
+		// callback parameters: register their ghost call traces up front so that loop havoc covers them
+		if sg, ok := o.Type().Underlying().(*types.Signature); ok {
+			for i := 0; i < sg.Params().Len() && i < 2; i++ {
+				ps := c.sortOf(sg.Params().At(i).Type())
+				if ps == SNone {
+					break
+				}
+				gn := "calls." + id.Name
+				if i == 1 {
+					gn = "calls2." + id.Name
+				}
+				gs := seqSort(ps)
+				c.declSeq(gs)
+				delete(c.V.specs.GhostVars, gn)
+				gv := c.traceGhost(gn, gs)
+				c.ghostGet(st, gv)
+			}
+			delete(c.V.specs.GhostVars, "nextpos."+id.Name)
+			c.ghostGet(st, c.traceGhost("nextpos."+id.Name, SInt))
+			if sg.Results().Len() > 0 && c.sortOf(sg.Results().At(0).Type()) == SBool {
+				delete(c.V.specs.GhostVars, "lastret."+id.Name)
+				gv := c.traceGhost("lastret."+id.Name, SBool)
+				c.ghostGet(st, gv)
+			}
 		}
 	}
 	if fd.Recv != nil {
@@ -172,9 +226,38 @@ func (v *Verifier) verifyFunc(key string, splitName, splitCase string, splitCond
 	for ri, rs := range rets {
 		envp := c.specEnvAt(rs, fd.Body.Rbrace)
 		for i, e := range c.con.Ensures {
+			if c.con.Flags["deterministic"] && strings.HasPrefix(e.Label, "def") {
+				// `result == f(args)` with f uninterpreted *defines* f as "what this function returns"; sound because the
+				// function is checked to be a function of its arguments only (syntacticPurity) and modifies nothing.
+				if why := c.syntacticPurity(); why != "" {
+					c.specErr("deterministic: %s is not a function of its arguments only: %s", c.key, why)
+				}
+				continue
+			}
 			t := c.specBool(envp, e.Expr)
 			c.addObl(&Obligation{Name: fmt.Sprintf("%s/ensures#%s@ret%d", c.key, clauseID(e, i), ri+1), Kind: "ensures",
 				Descr: "postcondition", Pos: c.pos(fd), Hyps: append([]string(nil), rs.pc...), Goal: t, Clause: e.Src})
+		}
+		// `iterates`: unless the callback said stop, no element that should have been passed remains
+		if it := c.con.Iter; it != nil && it.Seq.Expr != nil {
+			envR := c.specEnvAt(rs, fd.Body.Rbrace)
+			S := c.specEval(envR.old, it.Seq.Expr)
+			if isSeq(S.S) || S.S == SStr {
+				np := c.ghostGet(rs, c.traceGhost("nextpos."+it.Param, SInt))
+				last := c.ghostGet(rs, c.traceGhost("lastret."+it.Param, SBool))
+				c.nfresh++
+				m := fmt.Sprintf("m!q%d", c.nfresh)
+				cm := "true"
+				if it.When != nil {
+					cm = c.specBool(envR.old.withBound("k", &Val{T: m, S: SInt}).withBound("it", &Val{T: c.seqAt(S, m), S: elemSort(S.S)}), it.When.Expr)
+				}
+				if it.Guard != nil {
+					last = tAnd(c.specBool(envR.old, it.Guard.Expr), last)
+				}
+				goal := tImp(last, fmt.Sprintf("(forall ((%s Int)) (=> (and (<= %s %s) (< %s %s)) (not %s)))", m, np, m, m, c.seqLen(S), cm))
+				c.addObl(&Obligation{Name: fmt.Sprintf("%s/iterates.%s/complete@ret%d", c.key, it.Param, ri+1), Kind: "iterates",
+					Descr: "unless the callback said stop, every element of S (satisfying `when`) was passed", Pos: c.pos(fd), Hyps: append([]string(nil), rs.pc...), Goal: goal, Clause: "iterates " + it.Param + " seq " + it.Seq.Src})
+			}
 		}
 		// frame: modifies nothing / declared fields only
 		c.frameObligations(rs, ri)
@@ -229,7 +312,7 @@ func (v *Verifier) verifyLemma(ax *Axiom) *FuncResult {
 		entry: map[string]*Val{}, loopOrd: map[ast.Node]int{}, assumes: map[string]bool{}, lits: map[string]string{},
 		inputs: map[string]string{}, usedCons: map[string]bool{}, labels: map[string]int{}, nObl: map[string]int{},
 		errGlobals: map[string]bool{}, boxedScalars: map[types.Object]string{}, typeTags: map[string]bool{},
-		nocontract: map[string]bool{}, externNoCon: map[string]bool{}, inTrial: map[ast.Node]bool{}}
+		nocontract: map[string]bool{}, externNoCon: map[string]bool{}, inTrial: map[ast.Node]bool{}, iterExtra: map[ast.Node][]types.Object{}}
 	if len(c.con.Lemmas) == 0 {
 		c.con.Lemmas = []string{"-none-"}
 	}
@@ -364,7 +447,10 @@ func (c *FnCtx) frameObligations(rs *State, ri int) {
 		}
 		pre := c.pre.ghost[g]
 		if pre == "" {
-			pre = "ghost0_" + g
+			pre = "ghost0_" + sanitizeSym(g)
+		}
+		if strings.HasPrefix(g, "calls.") || strings.HasPrefix(g, "calls2.") || strings.HasPrefix(g, "lastret.") || strings.HasPrefix(g, "nextpos.") {
+			continue // the trace of the function's own callback parameters is specified by the postconditions
 		}
 		if cur == pre {
 			continue
@@ -458,3 +544,43 @@ const strOrderAxioms = `
 (assert (forall ((a Str) (b Str)) (! (=> (and (< (lcp a b) (len_Str a)) (< (lcp a b) (len_Str b))) (not (= (at_Str a (lcp a b)) (at_Str b (lcp a b))))) :pattern ((lcp a b)))))
 (assert (forall ((a Str) (b Str)) (! (= (slt a b) (or (and (= (lcp a b) (len_Str a)) (< (len_Str a) (len_Str b))) (and (< (lcp a b) (len_Str a)) (< (lcp a b) (len_Str b)) (< (at_Str a (lcp a b)) (at_Str b (lcp a b)))))) :pattern ((slt a b)))))
 `
+
+// syntacticPurity returns "" when the body reads nothing but its parameters, locals and constants and calls only
+// builtins, conversions and other functions flagged deterministic.
+func (c *FnCtx) syntacticPurity() string {
+	why := ""
+	ast.Inspect(c.fd.Body, func(n ast.Node) bool {
+		if why != "" {
+			return false
+		}
+		switch x := n.(type) {
+		case *ast.GoStmt, *ast.DeferStmt, *ast.SendStmt, *ast.SelectStmt, *ast.FuncLit:
+			why = fmt.Sprintf("%T at %s", n, c.pos(n))
+		case *ast.StarExpr:
+			why = "pointer dereference at " + c.pos(n)
+		case *ast.SelectorExpr:
+			if sel := c.info.Selections[x]; sel != nil && sel.Kind() == types.FieldVal {
+				if _, isPtr := sel.Recv().Underlying().(*types.Pointer); isPtr {
+					why = "heap read at " + c.pos(n)
+				}
+			}
+		case *ast.Ident:
+			if v, ok := c.info.Uses[x].(*types.Var); ok && v.Pkg() != nil && v.Parent() == v.Pkg().Scope() {
+				why = "package variable " + x.Name
+			}
+		case *ast.CallExpr:
+			ci := c.calleeOf(x)
+			if ci.conv || ci.builtin != "" {
+				return true
+			}
+			if ci.fn != nil {
+				if cc := c.V.specs.Contracts[typesFuncKey(ci.fn)]; cc != nil && (cc.Flags["deterministic"] || cc.Flags["pure-extern"]) {
+					return true
+				}
+			}
+			why = "call at " + c.pos(n)
+		}
+		return true
+	})
+	return why
+}
